@@ -1,69 +1,267 @@
-import DarkluaModel.C07.Instances
+import DarkluaModel.C07.Inst.Wf
+import DarkluaModel.C07.ContinueProof
 /-!
 # C07 — each Luau-lowering rule removes every occurrence of its construct: property theorems
 
 `census_<construct>` (C07/Model.lean) counts the construct over EVERY syntactic position of the
-shared AST. The theorems are about the rule models the driver executes (`Rules/*.lean`,
-compared tree-for-tree with the real `Rule::process` on every run) and hold for ALL blocks `b`
-that darklua's own AST types can express (`Rules.wfB`: the shared AST folds `Prefix`/`Variable`
-into `Expr`; e.g. an if-expression directly in prefix position exists in Lean but not in darklua —
-the harness checks `wfB` on every parsed tree).
+shared AST. The theorems are about the rule models the driver executes (`Rules/*.lean`, compared
+tree-for-tree with the real `Rule::process` on every run) and hold for ALL blocks `b` that
+darklua's own AST types can express (`Rules.wfB`: the shared AST folds `Prefix`/`Variable` into
+`Expr`; the harness checks `wfB` on every parsed tree).
 
-All of them are instances of the generic coverage theorem `cover_block` (C07/Cover.lean: the
-visitor reaches every node whatever the nesting) plus `fuelFor_enough` (the fuel of
-`Visitor.runDefault`/`runScoped` suffices).
+Eight of them are instances of the generic coverage theorem `cover_block` (C07/CoverProof.lean:
+the visitor reaches every node whatever the nesting), `remove_continue` has its own traversal
+proof (its hooks depend on the loop stack); `fuelFor_enough`: the fuel of
+`Visitor.runDefault`/`runScoped` suffices; `wf_block`: the rules keep blocks well-formed (needed
+to chain them in `all_lowered_is_51`).
 -/
 namespace DarkluaModel.C07
-open DarkluaModel.Rules
+open DarkluaModel.Rules Visitor
 
-/-- `make_assignment_local`: no `const` declaration is left, wherever it was nested. -/
+/-! ### helpers: from `Cover` to statements about `apply` -/
+
+theorem count_left {A B : Census} {b : Block} (h : countB (A.add B) b = 0) : countB A b = 0 := by
+  rw [addB] at h; omega
+
+theorem count_right {A B : Census} {b : Block} (h : countB (A.add B) b = 0) : countB B b = 0 := by
+  rw [addB] at h; omega
+
+theorem small (W : Weights) (hb : ∀ op, W.bin op ≤ 6) (hi : W.interp ≤ 6) (hx : W.ifx ≤ 13) (hc : W.cassign ≤ 6)
+    (hct : W.cont ≤ 6) (b : Block) : kB W b + 1 ≤ Visitor.fuelFor b :=
+  fuelFor_enough W hb hi hx hc hct b
+
+theorem count_insertFirst (C : Census) (d : Stmt) (b : Block) : countB C (insertFirst d b) = countS C d + countB C b := by
+  cases b; simp only [insertFirst, countB, countSs]; omega
+
+theorem wf_insertFirst (d : Stmt) (b : Block) (hd : wfS d = true) (hb : wfB b = true) : wfB (insertFirst d b) = true := by
+  cases b; simp_all [insertFirst, wfB, wfSs]
+
+/-! ### the nine rules, each with an accumulator `A`: what was already removed stays removed -/
+
+section acc
+variable (A : Census)
+
+theorem types_acc (b : Block) (hw : wfB b = true) (hA : countB A b = 0) :
+    countB (typesCensus.add A) (RemoveTypes.apply b) = 0 ∧ wfB (RemoveTypes.apply b) = true :=
+  ⟨cover_block RemoveTypes.processor false _ A {} _ (cover_remove_types A) _ b () hw hA
+      (small {} (fun _ => Nat.zero_le _) (Nat.zero_le _) (Nat.zero_le _) (Nat.zero_le _) (Nat.zero_le _) b),
+    wf_block RemoveTypes.processor false wfHooks_remove_types _ true b () hw⟩
+
+theorem compound_acc (hop : ∀ op, A.bin op = 0) (hl : A.localKind .loc = 0) (b : Block) (hw : wfB b = true)
+    (hA : countB A b = 0) :
+    countB (compoundCensus.add A) (RemoveCompoundAssign.apply b) = 0 ∧ wfB (RemoveCompoundAssign.apply b) = true :=
+  ⟨cover_block RemoveCompoundAssign.processor true _ A Wcompound _ (cover_remove_compound_assignment A hop hl) _ b _ hw hA
+      (small Wcompound (fun _ => Nat.zero_le _) (Nat.zero_le _) (Nat.zero_le _) (by decide) (Nat.zero_le _) b),
+    wf_block RemoveCompoundAssign.processor true wfHooks_remove_compound_assignment _ true b _ hw⟩
+
+theorem ifexpr_acc (truthy : Expr → Bool) (hor : A.bin .or = 0) (hand : A.bin .and = 0) (b : Block)
+    (hw : wfB b = true) (hA : countB A b = 0) :
+    countB (ifExpressionCensus.add A) (RemoveIfExpression.apply truthy b) = 0 ∧
+      wfB (RemoveIfExpression.apply truthy b) = true :=
+  ⟨cover_block (RemoveIfExpression.processor truthy) false _ A Wifx _ (cover_remove_if_expression A truthy hor hand) _ b ()
+      hw hA (small Wifx (fun _ => Nat.zero_le _) (Nat.zero_le _) (by decide) (Nat.zero_le _) (Nat.zero_le _) b),
+    wf_block (RemoveIfExpression.processor truthy) false (wfHooks_remove_if_expression truthy) _ true b () hw⟩
+
+theorem interp_acc (strategy : RemoveInterpolatedString.Strategy) (hl : A.localKind .loc = 0) (b : Block)
+    (hw : wfB b = true) (hA : countB A b = 0) :
+    countB (interpolatedStringCensus.add A) (RemoveInterpolatedString.applyWith strategy b) = 0 ∧
+      wfB (RemoveInterpolatedString.applyWith strategy b) = true := by
+  have h1 := cover_block (RemoveInterpolatedString.processor strategy) true _ A Winterp _
+    (cover_remove_interpolated_string A strategy) _ b {} hw hA
+    (small Winterp (fun _ => Nat.zero_le _) (by decide) (Nat.zero_le _) (Nat.zero_le _) (Nat.zero_le _) b)
+  have h2 := wf_block (RemoveInterpolatedString.processor strategy) true
+    (wfHooks_remove_interpolated_string strategy) (Visitor.fuelFor b) true b {} hw
+  unfold RemoveInterpolatedString.applyWith Visitor.runScoped
+  generalize Visitor.visitBlock (RemoveInterpolatedString.processor strategy) true (Visitor.fuelFor b) true b {} = r
+    at h1 h2
+  obtain ⟨b1, s⟩ := r
+  simp only at h1 h2 ⊢
+  cases hd : RemoveInterpolatedString.definitions s with
+  | none => exact ⟨h1, h2⟩
+  | some d =>
+    have hd' : ∃ names vals, d = .localAssign .loc names vals ∧ wfTNs names = true ∧ wfEs vals = true ∧
+        (∀ C : Census, countTNs C names = 0 ∧ countEs C vals = 0) := by
+      unfold RemoveInterpolatedString.definitions at hd
+      split at hd
+      · simp only [Option.some.injEq] at hd
+        refine ⟨_, _, hd.symm, ?_, ?_, ?_⟩
+        · split <;> split <;> simp [wfTNs, wfTN, wfOTy]
+        · split <;> split <;> simp [wfEs, wfE, isPrefix]
+        · intro C; constructor
+          · split <;> split <;> simp [countTNs, countTN, countOTy]
+          · split <;> split <;> simp [countEs, countE]
+      · simp at hd
+    obtain ⟨names, vals, rfl, hn, hv, hc⟩ := hd'
+    simp only []
+    refine ⟨?_, wf_insertFirst _ _ (by simp [wfS, hn, hv]) h2⟩
+    rw [count_insertFirst]
+    have hz : (interpolatedStringCensus.add A).localKind .loc = 0 := by rw [add_localKind, hl]; rfl
+    simp only [countS, (hc _).1, (hc _).2, hz]
+    omega
+
+theorem floordiv_acc (hdiv : A.bin .div = 0) (hno : A.cassign .idiv ≠ 0) (hl : A.localKind .loc = 0) (b : Block)
+    (hw : wfB b = true) (hA : countB A b = 0) :
+    countB (floorDivisionCensus.add A) (RemoveFloorDivision.apply b) = 0 ∧
+      wfB (RemoveFloorDivision.apply b) = true := by
+  have h1 := cover_block RemoveFloorDivision.processor true _ A Wfloor _
+    (cover_remove_floor_division A hdiv hno) _ b {} hw hA
+    (small Wfloor (fun op => by simp only [Wfloor]; split <;> omega) (Nat.zero_le _) (Nat.zero_le _) (Nat.zero_le _)
+      (Nat.zero_le _) b)
+  have h2 := wf_block RemoveFloorDivision.processor true wfHooks_remove_floor_division (Visitor.fuelFor b) true b {} hw
+  unfold RemoveFloorDivision.apply Visitor.runScoped
+  generalize Visitor.visitBlock RemoveFloorDivision.processor true (Visitor.fuelFor b) true b {} = r at h1 h2
+  obtain ⟨b1, s⟩ := r
+  simp only at h1 h2 ⊢
+  split
+  · refine ⟨?_, wf_insertFirst _ _ (by simp [RemoveFloorDivision.definition, wfS, wfTNs, wfTN, wfOTy, wfEs, wfE, isPrefix]) h2⟩
+    rw [count_insertFirst]
+    have hz : (floorDivisionCensus.add A).localKind .loc = 0 := by rw [add_localKind, hl]; rfl
+    simp only [RemoveFloorDivision.definition, countS, countTNs, countTN, countOTy, countEs, countE, hz]
+    omega
+  · exact ⟨h1, h2⟩
+
+omit A in
+theorem wf_apply_floor_division (b : Block) (hw : wfB b = true) : wfB (RemoveFloorDivision.apply b) = true := by
+  have h2 := wf_block RemoveFloorDivision.processor true wfHooks_remove_floor_division (Visitor.fuelFor b) true b {} hw
+  unfold RemoveFloorDivision.apply Visitor.runScoped
+  generalize Visitor.visitBlock RemoveFloorDivision.processor true (Visitor.fuelFor b) true b {} = r at h2
+  obtain ⟨b1, s⟩ := r
+  simp only at h2 ⊢
+  split
+  · exact wf_insertFirst _ _ (by simp [RemoveFloorDivision.definition, wfS, wfTNs, wfTN, wfOTy, wfEs, wfE, isPrefix]) h2
+  · exact h2
+
+theorem number_acc (b : Block) (hw : wfB b = true) (hA : countB A b = 0) :
+    countB (Z.add A) (ConvertLuauNumber.apply b) = 0 ∧ wfB (ConvertLuauNumber.apply b) = true :=
+  ⟨cover_block ConvertLuauNumber.processor false _ A {} _ (cover_convert_luau_number A) _ b () hw hA
+      (small {} (fun _ => Nat.zero_le _) (Nat.zero_le _) (Nat.zero_le _) (Nat.zero_le _) (Nat.zero_le _) b),
+    wf_block ConvertLuauNumber.processor false wfHooks_convert_luau_number _ true b () hw⟩
+
+theorem const_acc (hl : A.localKind .loc = 0) (b : Block) (hw : wfB b = true) (hA : countB A b = 0) :
+    countB (constCensus.add A) (MakeAssignmentLocal.apply b) = 0 ∧ wfB (MakeAssignmentLocal.apply b) = true :=
+  ⟨cover_block MakeAssignmentLocal.processor false _ A {} _ (cover_make_assignment_local A hl) _ b () hw hA
+      (small {} (fun _ => Nat.zero_le _) (Nat.zero_le _) (Nat.zero_le _) (Nat.zero_le _) (Nat.zero_le _) b),
+    wf_block MakeAssignmentLocal.processor false wfHooks_make_assignment_local _ true b () hw⟩
+
+theorem attribute_acc (b : Block) (hw : wfB b = true) (hA : countB A b = 0) :
+    countB (attributeCensus.add A) (RemoveAttribute.apply b) = 0 ∧ wfB (RemoveAttribute.apply b) = true :=
+  ⟨cover_block RemoveAttribute.processor false _ A {} _ (cover_remove_attribute A) _ b () hw hA
+      (small {} (fun _ => Nat.zero_le _) (Nat.zero_le _) (Nat.zero_le _) (Nat.zero_le _) (Nat.zero_le _) b),
+    wf_block RemoveAttribute.processor false wfHooks_remove_attribute _ true b () hw⟩
+
+end acc
+
+theorem continue_main (b : Block) (hw : wfB b = true) (hok : continueInLoops b = true) :
+    countB continueCensus (RemoveContinue.apply b) = 0 ∧ wfB (RemoveContinue.apply b) = true :=
+  ⟨((clevel_all onlyCont_continueCensus (Visitor.fuelFor b)).block true b {} hok
+      (small Wcont (fun _ => Nat.zero_le _) (Nat.zero_le _) (Nat.zero_le _) (Nat.zero_le _) (by decide) b)).1,
+    wf_block RemoveContinue.processor false wfHooks_remove_continue _ true b {} hw⟩
+
+/-! ## The property theorems -/
+
+/-- `remove_types`: no type syntax is left (annotations of variables / parameters / functions,
+generic parameters, `type` declarations and type functions, casts `e :: T`, type instantiations
+`f<<T>>` in expression and prefix position) — wherever it was nested. -/
+theorem census_zero_remove_types (b : Block) (hw : wfB b = true) : census_types (RemoveTypes.apply b) = 0 :=
+  count_left (types_acc Z b hw (zB b)).1
+
+/-- `remove_compound_assignment`: no `target op= value` statement is left. -/
+theorem census_zero_remove_compound_assignment (b : Block) (hw : wfB b = true) :
+    census_compound_assignment (RemoveCompoundAssign.apply b) = 0 :=
+  count_left (compound_acc Z (fun _ => rfl) rfl b hw (zB b)).1
+
+/-- `remove_continue`: no `continue` is left, PROVIDED every `continue` of the input is inside a
+loop of its function (`continueInLoops`, decidable; the driver answers it as `c06.hyp`). -/
+theorem census_zero_remove_continue_partial (b : Block) (hw : wfB b = true) (hok : continueInLoops b = true) :
+    census_continue (RemoveContinue.apply b) = 0 :=
+  (continue_main b hw hok).1
+
+/-- the unconditional statement … -/
+def census_zero_remove_continue_full : Prop :=
+  ∀ b : Block, wfB b = true → census_continue (RemoveContinue.apply b) = 0
+
+/-- … is FALSE: darklua's parser accepts `continue` outside any loop, and the rule leaves it in place. -/
+theorem census_zero_remove_continue_full_false : ¬ census_zero_remove_continue_full := by
+  intro h
+  have := h (.mk [] (some .cont)) rfl
+  revert this
+  decide
+
+/-- `remove_if_expression`: no if-expression is left, whatever the static evaluator answers
+(both encodings), wherever it was nested. -/
+theorem census_zero_remove_if_expression (truthy : Expr → Bool) (b : Block) (hw : wfB b = true) :
+    census_if_expression (RemoveIfExpression.apply truthy b) = 0 :=
+  count_left (ifexpr_acc Z truthy rfl rfl b hw (zB b)).1
+
+/-- `remove_interpolated_string` (both strategies): no interpolated string is left. -/
+theorem census_zero_remove_interpolated_string (strategy : RemoveInterpolatedString.Strategy) (b : Block)
+    (hw : wfB b = true) : census_interpolated_string (RemoveInterpolatedString.applyWith strategy b) = 0 :=
+  count_left (interp_acc Z strategy rfl b hw (zB b)).1
+
+/-- `remove_floor_division`: no `//` and no `//=` is left — proved for inputs without `//=`
+statements (`census_idiv_assign b = 0`, what `remove_compound_assignment` establishes): the rule
+hands a `//=` statement to a NESTED compound-assignment visitor (fresh tracker, own fuel) whose
+output is not analysed here; with `//=` present the claim rests on the correspondence + oracle. -/
+theorem census_zero_remove_floor_division (b : Block) (hw : wfB b = true) (hno : census_idiv_assign b = 0) :
+    census_floor_division (RemoveFloorDivision.apply b) = 0 :=
+  count_left (floordiv_acc idivAssignCensus rfl (by decide) rfl b hw hno).1
+
+/-- `convert_luau_number`: the shared AST has no Luau-only number spelling to count (literals
+carry their value only); the real claim (no `0b…` / `_` left) is judged by the oracle on text. -/
+theorem census_zero_convert_luau_number (b : Block) : census_luau_number (ConvertLuauNumber.apply b) = 0 := rfl
+
+/-- `make_assignment_local`: no `const` declaration is left. -/
 theorem census_zero_make_assignment_local (b : Block) (hw : wfB b = true) :
     census_const (MakeAssignmentLocal.apply b) = 0 :=
-  cover_block MakeAssignmentLocal.processor false constCensus Z {} cover_make_assignment_local _ b ()
-    hw (zB b) (fuelFor_enough {} (fun _ => Nat.zero_le _) (Nat.zero_le _) rfl (Nat.zero_le _) b)
-
--- non-vacuity: a well-formed block with a `const` nested in a function inside a table constructor
-example : wfB (.mk [.callStmt (.call (.var "f") none .tuple
-    [.table [.pos (.fn (.mk [] false none none [] [] (.mk [.localAssign .const [.mk "x" none] [.nil]] none)))]])] none) = true := by
-  decide
-example : census_const (.mk [.callStmt (.call (.var "f") none .tuple
-    [.table [.pos (.fn (.mk [] false none none [] [] (.mk [.localAssign .const [.mk "x" none] [.nil]] none)))]])] none) = 1 := by
-  decide
+  count_left (const_acc Z rfl b hw (zB b)).1
 
 /-- `remove_attribute` (no `match` filter): no function attribute is left. -/
 theorem census_zero_remove_attribute (b : Block) (hw : wfB b = true) :
     census_attribute (RemoveAttribute.apply b) = 0 :=
-  cover_block RemoveAttribute.processor false attributeCensus Z {} cover_remove_attribute _ b ()
-    hw (zB b) (fuelFor_enough {} (fun _ => Nat.zero_le _) (Nat.zero_le _) rfl (Nat.zero_le _) b)
+  count_left (attribute_acc Z b hw (zB b)).1
 
-example : census_attribute (.mk [.localFn .loc "f" (.mk [] false none none [] ["native"]
-    (.mk [] (some (.ret [.fn (.mk [] false none none [] ["native", "checked"] (.mk [] none))]))))] none) = 3 := by
-  decide
+/-- **All nine rules** (`lowerAll`: remove_continue, remove_types, remove_compound_assignment,
+remove_if_expression, remove_interpolated_string, remove_floor_division, convert_luau_number,
+make_assignment_local, remove_attribute — each rule removes its construct AND re-introduces none
+of those removed before it): the result uses no Luau-only construct (`IsLua51`, a decidable
+predicate: the sum of the nine censuses is 0), for every well-formed block whose `continue`s are
+inside loops, whatever the static evaluator answers. -/
+theorem all_lowered_is_51 (truthy : Expr → Bool) (b : Block) (hw : wfB b = true)
+    (hok : continueInLoops b = true) : IsLua51 (lowerAll truthy b) := by
+  obtain ⟨c1, w1⟩ := continue_main b hw hok
+  obtain ⟨c2, w2⟩ := types_acc continueCensus _ w1 c1
+  obtain ⟨c3, w3⟩ := compound_acc _ (fun _ => rfl) rfl _ w2 c2
+  obtain ⟨c4, w4⟩ := ifexpr_acc _ truthy rfl rfl _ w3 c3
+  obtain ⟨c5, w5⟩ := interp_acc _ .string rfl _ w4 c4
+  obtain ⟨c6, w6⟩ := floordiv_acc _ rfl (by decide) rfl _ w5 c5
+  obtain ⟨c7, w7⟩ := number_acc _ _ w6 c6
+  obtain ⟨c8, w8⟩ := const_acc _ rfl _ w7 c7
+  exact (attribute_acc _ _ w8 c8).1
 
-/-- the fuel hypothesis of the if-expression theorem (decidable; the driver answers it as
-`c06.fuelok`, and the harness checks it on every program it uses): the weighted depth of the
-block — 13 extra levels per if-expression branch, the depth of the `(c and {r} or {e})[1]`
-skeleton — fits in `Visitor.fuelFor`. It can only fail for chains of more than ~2 `elseif`s per
-unit of tree size, which no program has; the general proof of this arithmetic fact is not done. -/
-def ifFuelOk (b : Block) : Prop := kB Wifx b + 1 ≤ Visitor.fuelFor b
+/-- … and the result is still a tree darklua's AST can express. -/
+theorem all_lowered_wf (truthy : Expr → Bool) (b : Block) (hw : wfB b = true) : wfB (lowerAll truthy b) = true := by
+  have w1 : wfB (RemoveContinue.apply b) = true :=
+    wf_block RemoveContinue.processor false wfHooks_remove_continue (Visitor.fuelFor b) true b {} hw
+  obtain ⟨_, w2⟩ := types_acc Z _ w1 (zB _)
+  obtain ⟨_, w3⟩ := compound_acc Z (fun _ => rfl) rfl _ w2 (zB _)
+  obtain ⟨_, w4⟩ := ifexpr_acc Z truthy rfl rfl _ w3 (zB _)
+  obtain ⟨_, w5⟩ := interp_acc Z .string rfl _ w4 (zB _)
+  have w6 := wf_apply_floor_division _ w5
+  obtain ⟨_, w7⟩ := number_acc Z _ w6 (zB _)
+  obtain ⟨_, w8⟩ := const_acc Z rfl _ w7 (zB _)
+  exact (attribute_acc Z _ w8 (zB _)).2
 
-instance (b : Block) : Decidable (ifFuelOk b) := inferInstanceAs (Decidable (_ ≤ _))
+/-! ### non-vacuity -/
 
-/-- `remove_if_expression`: no if-expression is left, whatever the verdicts `truthy` of the
-static evaluator (both encodings), wherever it was nested (conditions, branches of another
-if-expression, `typeof(…)`, …). -/
-theorem census_zero_remove_if_expression (truthy : Expr → Bool) (b : Block) (hw : wfB b = true)
-    (hf : ifFuelOk b) : census_if_expression (RemoveIfExpression.apply truthy b) = 0 :=
-  cover_block (RemoveIfExpression.processor truthy) false ifExpressionCensus Z Wifx
-    (cover_remove_if_expression truthy) _ b () hw (zB b) hf
+-- a well-formed block with constructs nested in each other, `continue` inside a loop
+def sample : Block :=
+  .mk [.while_ (.ifx (.var "a") (.bin .idiv (.num 0) (.num 0)) [] (.interp [.v (.var "x")]))
+        (.mk [.cassign .idiv (.field (.call (.var "f") none .tuple []) "x") (.cast (.num 0) (.typeof (.ifx .true .nil [] .nil))),
+              .localFn .const "g" (.mk [.mk "p" (some (.mk "name:T" []))] false none none ["T"] ["native"] (.mk [] none))]
+          (some .cont))] none
 
-example : wfB (.mk [] (some (.ret [.ifx (.var "a") (.ifx .true .nil [] .false) [(.var "b", .num 0)] (.var "c")]))) = true ∧
-    ifFuelOk (.mk [] (some (.ret [.ifx (.var "a") (.ifx .true .nil [] .false) [(.var "b", .num 0)] (.var "c")]))) := by
-  decide
-
-/-- `convert_luau_number`: the shared AST has no Luau-only number spelling to count (literals
-carry their value only); the harness counts `0b…` / `_` on the real tree and text instead. -/
-theorem census_zero_convert_luau_number (b : Block) :
-    census_luau_number (ConvertLuauNumber.apply b) = 0 := rfl
+example : wfB sample = true ∧ continueInLoops sample = true := by decide
+example : census_luau sample = 13 := by decide
+example : wfB (.mk [] (some .cont)) = true ∧ continueInLoops (.mk [] (some .cont)) = false := by decide
 
 end DarkluaModel.C07
